@@ -3,8 +3,9 @@
 
    Model: Msi/Protocol.v, the abstract machine of proc/mvp7-0/{msi,cc}.go (the
    same code in proc/mvp7-1); N cores, any number of lines, every interleaving.
-   The L3 level of proc/mvp8-0 is NOT in the machine: for MVP-8.0 the property
-   is decided by the run-time evaluation of inv_b only (lib/vf/c06.py).
+   The L3 level of proc/mvp8-0 is not in THIS machine: the three-level machine
+   (Msi/L3Protocol.v, which imports this one) and its theorems are in
+   Props/C06_l3.v.
    Tie to the code: the extracted inv_b is evaluated on a snapshot of the
    implementation after every cycle of every rig script and pipeline run. *)
 From Coq Require Import List ZArith Bool.
